@@ -321,7 +321,11 @@ OnRunEnd(mon, ev) ==
             jl |-> IF ev.out \in {"true","false"} THEN Append(A.jl, "run") ELSE A.jl]
   IN  AddBad([UpdA(mon, a, u) EXCEPT !.crashed = mon.crashed \/ ev.out \in {"err","panic"}], b)
 
-OnRunDrop(mon, ev) == UpdA(mon, ev.a, [runOpen |-> FALSE])
+\* the on_run future was dropped; an operation it was awaiting is cancelled with it
+OnRunDrop(mon, ev) ==
+  LET A == ActOf(mon, ev.a)
+      m1 == IF A.nestOp # 0 THEN UpdO(mon, A.nestOp, [done |-> TRUE, mustPanic |-> FALSE]) ELSE mon
+  IN  UpdA(m1, ev.a, [runOpen |-> FALSE, nestOp |-> 0])
 
 OnDeadLetter(mon, ev) ==
   LET known == Has(mon.ops, ev.op) /\ ~OpOf(mon, ev.op).done
